@@ -265,6 +265,14 @@ MUTATIONS += [
     dict(id="C08-fromfile-reread-wrong-offset", prop="C08", file=PFILE, old="            let offset = pack_size - size_real - constants::LENGTH_LEN;", new="            let offset = pack_size - size_real;"),
 ]
 
+# ---- C02 BlobCopier
+MUTATIONS += [
+    dict(id="C02-copyfast-start-not-rebased", prop="C02", file=PK, old="            let start = usize::try_from(blob.offset - offset)\n                .expect(\"convert from u32 to usize should not fail!\");\n            let end = usize::try_from(blob.offset + blob.length - offset)\n                .expect(\"convert from u32 to usize should not fail!\");\n            self.packer\n                .add_raw(", new="            let start = usize::try_from(blob.offset)\n                .expect(\"convert from u32 to usize should not fail!\");\n            let end = usize::try_from(blob.offset + blob.length - offset)\n                .expect(\"convert from u32 to usize should not fail!\");\n            self.packer\n                .add_raw("),
+    dict(id="C02-copyfast-drops-uncompressed-length", prop="C02", file=PK, old="                    u64::from(blob.length),\n                    blob.uncompressed_length,\n                )", new="                    u64::from(blob.length),\n                    None,\n                )"),
+    dict(id="C02-copy-end-one-short", prop="C02", file=PK, old="            let end = usize::try_from(blob.offset + blob.length - offset)\n                .expect(\"convert from u32 to usize should not fail!\");\n            let data = self", new="            let end = usize::try_from(blob.offset + blob.length - offset - 1)\n                .expect(\"convert from u32 to usize should not fail!\");\n            let data = self"),
+    dict(id="C02-copy-coalesce-across-packs", prop="C02", file=PK, old="        if self.pack_id == other.pack_id && self.locations.can_coalesce(&other.locations) {", new="        if self.locations.can_coalesce(&other.locations) {"),
+]
+
 HARMLESS = [
     dict(id="H-C05-trees-symlink-continue", prop="C05", file=CK, old="        for node in tree.nodes {\n            match node.node_type {", new="        for node in tree.nodes {\n            if node.node_type == NodeType::Symlink {\n                continue;\n            }\n            match node.node_type {"),
 ]
